@@ -26,6 +26,9 @@ type GridOpts struct {
 func estimate(c *Config) int64 {
 	var sum int64 = 1
 	for _, b := range c.Bankroll {
+		if b > 30 {
+			b = 30 // beyond that the stack depth in big blinds matters, not the number
+		}
 		sum += b
 	}
 	e := sum
